@@ -154,7 +154,9 @@ theorem WstOK_step (cfg : Cfg) (s : St) (op : Op) : WstOK s (step cfg s op).1 :=
     · exact WstOK_of_eq rfl
   | removeIdle c =>
     simp only [step]; split; exact WstOK_of_eq rfl
-    exact WstOK_of_eq (by simp)
+    split
+    · exact WstOK_of_eq (by simp)
+    · exact WstOK_of_eq rfl
   | idleTimeout c =>
     simp only [step]; split; exact WstOK_of_eq rfl
     exact WstOK_of_eq (by simp)
